@@ -296,7 +296,7 @@ pub fn run_input(input: &Value) -> Case {
         let r = survives_in_child(&bytes);
         out["impl"] = json!(match r { Some(true) => "returned", Some(false) => "PANIC", None => "STACK-OVERFLOW" });
         let gallina = format!("K16Big {} {}", bytes.len(), g_bool(r == Some(true)));
-        return Case { gallina, json: out, class, nontrivial: true, key: serde_json::to_string(input).unwrap() };
+        return Case { gallina, json: out, class, nontrivial: true, key: serde_json::to_string(input).unwrap(), features: vec![] };
     }
     let bytes = hex::decode(input["bytes"].as_str().expect("bytes")).expect("hex");
     let deep = input["deep"].as_bool().unwrap_or(false);
@@ -327,7 +327,7 @@ pub fn run_input(input: &Value) -> Case {
         }
     };
     let gallina = format!("K16 {} {} {} {}", gb(&bytes), g_obs, g_urls, g_bool(outside));
-    Case { gallina, json: out, class, nontrivial, key: input["bytes"].as_str().unwrap().to_string() }
+    Case { gallina, json: out, class, nontrivial, key: input["bytes"].as_str().unwrap().to_string(), features: vec![] }
 }
 
 // ---------------------------------------------------------------- JSON text, written here
